@@ -28,10 +28,11 @@ theorem wf_preserved (doc d : J) (ops : List SOp) (hstd : ∀ op ∈ ops, op.sta
 
 /-! ### Named corollaries (so that none of the listed behaviours can be weakened silently) -/
 
-/-- Inserting at an index equal to the array length appends, for `add`. -/
-theorem add_at_length (xs : List J) (v : J) :
+/-- Inserting at an index equal to the array length appends, for `add`.
+    (Arrays longer than the index limit are outside the pointer index range.) -/
+theorem add_at_length (xs : List J) (v : J) (hr : (xs.length : Int) ≤ maxIntIndex) :
     applyOp (.arr xs) (.add [toPart (natStr xs.length)] v) = .ok (.arr (xs ++ [v])) := by
-  exact Lemmas.add_at_length xs v
+  exact Lemmas.add_at_length xs v hr
 
 /-- `-` appends, for `add`. -/
 theorem add_dash (xs : List J) (v : J) :
